@@ -1789,7 +1789,8 @@ def r6_close(run):
     cidi = _CloseIdioms(close, is_wrapped)
     ccalls = [x for x in walk_self(close.node) if cidi.is_close_call(x)]
     nodes = [n for x in ccalls for n in cix.nodes_of(x)]
-    path = flow.find_path(ccfg, [ccfg.entry], [ccfg.exit], avoid_nodes=nodes, edge_filter=flow.no_exc)
+    # (for a stream that has a close(): a hasattr()/getattr(..., None) guard skips the call only when there is nothing to close)
+    path = flow.find_path(ccfg, [ccfg.entry], [ccfg.exit], avoid_nodes=nodes, edge_filter=pruned(ccfg, cidi.atom(True), flow.no_exc))
     run.check(bool(nodes) and path is None, 'CloseableStreamIterator.close() closes the wrapped stream on every path', close,
               'self.%s.close()' % sattr, where=close.loc(), runtime_witness='a temp-file response stream is never closed under wsgiref')
     reads = [x for x in walk_self(nxt.node) if isinstance(x, ast.Call) and isinstance(x.func, ast.Attribute) and x.func.attr == 'read'
@@ -1825,6 +1826,74 @@ def r6_close(run):
     _get_body_wrapping(run, c)
 
 
+# Callables whose result is a FRESH object that does not forward close() to the iterable it was built from.  PEP 3333
+# makes the server call close() on the object the application returned; when that object is one of these, the close()
+# of resp.stream is never called.  Frozen, one line of reason per entry; a callable that is not listed is not judged.
+_CLOSE_DROPPING: Dict[str, str] = {
+    'builtins.iter': 'iter(x) is whatever x.__iter__() returns (or a callable_iterator): for a re-iterable object that is a new '
+                     'iterator, which has no close() that reaches x',
+    'builtins.map': 'a map object has no close() method',
+    'builtins.filter': 'a filter object has no close() method',
+    'builtins.zip': 'a zip object has no close() method',
+    'builtins.enumerate': 'an enumerate object has no close() method (and yields tuples)',
+    'builtins.reversed': 'a reversed object has no close() method',
+    'builtins.list': 'a list has no close() method: the stream is drained and never closed',
+    'builtins.tuple': 'a tuple has no close() method: the stream is drained and never closed',
+    'itertools.chain': 'an itertools.chain object has no close() method',
+    'itertools.chain.from_iterable': 'an itertools.chain object has no close() method',
+    'itertools.islice': 'an itertools.islice object has no close() method',
+}
+_COMPREHENSION_REASON = {
+    'GeneratorExp': 'a generator expression over the stream: the generator\'s close() finishes the generator, it does not call the '
+                    'close() of what it iterates',
+    'ListComp': 'a list comprehension over the stream: a list has no close() method',
+    'SetComp': 'a set comprehension over the stream: a set has no close() method',
+    'DictComp': 'a dict comprehension over the stream: a dict has no close() method',
+}
+
+
+def _close_forwarding(p, c: Class) -> Tuple[bool, str]:
+    """Does the package class `c`, constructed around a stream, forward close() to it?  (True, '') when `c.close()`
+    calls close() of the attribute its constructor stored the first argument in on every non-exceptional path and no
+    other method of the class closes that object; (False, reason) when the class defines no close() or a path through
+    close() does not reach the stream's; anything else is not read (UnknownIdiom)."""
+    opaque = [b for b in p.mro(c.qual)[1:] if b not in p.classes and b not in ('object', 'builtins.object')]
+    close = p.lookup_method(c.qual, 'close')
+    init = p.lookup_method(c.qual, '__init__')
+    if close is None:
+        if opaque:
+            raise UnknownIdiom('%s: close() may come from the base %s, which is not read' % (c.qual, opaque[0]))
+        return False, '%s defines no close() method' % c.qual
+    if init is None:
+        raise UnknownIdiom('%s: no __init__ to find the wrapped stream in' % c.qual)
+    sp = param_at(init, 1, 'stream')
+    attrs = sorted({t.attr for n in walk_self(init.node) if isinstance(n, ast.Assign) and is_name(n.value, sp)
+                    for t in n.targets if isinstance(t, ast.Attribute) and is_name(t.value, 'self')})
+    if len(attrs) != 1:
+        raise UnknownIdiom('%s: the attribute holding the wrapped stream' % init.qual)
+    sattr = attrs[0]
+    for k in p.mro(c.qual):
+        for mname, m in sorted(p.classes[k].methods.items()) if k in p.classes else ():
+            if mname in ('close', '__init__'):
+                continue
+            if any(isinstance(x, ast.Attribute) and x.attr == 'close' for x in walk_self(m.node)) or any(
+                    isinstance(x, ast.Constant) and x.value == 'close' for x in walk_self(m.node)):
+                raise UnknownIdiom('%s: mentions close outside close() (exactly-once is not read for this wrapper)' % m.qual)
+    close = inline_view(p, close)
+    ccfg = cfg_of(close, p)
+    cix = Index(ccfg)
+    w_al = aliases(close, lambda e: is_self_attr(e, sattr))
+    cidi = _CloseIdioms(close, lambda e: is_self_attr(e, sattr) or (isinstance(e, ast.Name) and e.id in w_al))
+    nodes = [n for x in walk_self(close.node) if cidi.is_close_call(x) for n in cix.nodes_of(x)]
+    if not nodes:
+        return False, '%s.close() does not call self.%s.close()' % (c.qual, sattr)
+    # judged for a stream that HAS a close(): `if hasattr(s, 'close')` / `c = getattr(s, 'close', None); if c is not None`
+    # only skip the call for a stream that has nothing to close
+    if flow.find_path(ccfg, [ccfg.entry], [ccfg.exit], avoid_nodes=nodes, edge_filter=pruned(ccfg, cidi.atom(True), flow.no_exc)) is not None:
+        return False, '%s.close() has a path that does not call self.%s.close()' % (c.qual, sattr)
+    return True, ''
+
+
 def _get_body_wrapping(run, closer: Class):
     """WSGI `_get_body`, decided per PATH of its CFG and not by the shape of
     its statements.  The function is evaluated over the four cells of
@@ -1837,6 +1906,16 @@ def _get_body_wrapping(run, closer: Class):
       * X is the server's file wrapper called on the stream -> only in the
         cell (read(), wrapper supplied)
       * X is CloseableStreamIterator(stream, ...) -> only in the cells with read()
+      * X is another wrapper class of the package around the stream -> its close()
+        must call the wrapped stream's close() on every path (_close_forwarding)
+      * X is built from the stream by a callable of the frozen table
+        _CLOSE_DROPPING (iter, map, filter, zip, enumerate, reversed, list, tuple,
+        itertools.chain/islice) or by a comprehension / generator expression -> in
+        no cell: PEP 3333 has the server call close() on the object the application
+        returned, and that fresh object does not forward it to the stream.
+        (W: resp.stream is a re-iterable object with its own close(), `iter(stream)`
+        is returned: stream.close() is called 0 times.)
+      * any other callable is not judged (UnknownIdiom)
     `if c: x = A else: x = B; return x, None`, `x = B; if c: x = A`,
     `if not c: return B, None` + fall-through and `return (A if c else B), None`
     are the same paths.
@@ -1897,6 +1976,8 @@ def _get_body_wrapping(run, closer: Class):
     what_wrap = ('WSGI _get_body: a file-like stream is wrapped by the server file wrapper or CloseableStreamIterator '
                  '(both close it)')
     what_present = 'WSGI _get_body: the server file wrapper is called only when the server supplied one'
+    what_keep = ('WSGI _get_body: the object returned to the server for a stream is the stream itself or a wrapper whose '
+                 'close() closes it (PEP 3333: the server calls close() on the object the application returned)')
     cell_text = lambda fl, wp: '%s stream, server %s wsgi.file_wrapper' % (  # noqa: E731
         'file-like' if fl else 'iterable (no read())', 'with' if wp else 'without')
     verdicts: Dict[Tuple[str, int], List] = {}     # (what, defining node) -> [ok in every cell, cells where not]
@@ -1906,6 +1987,15 @@ def _get_body_wrapping(run, closer: Class):
         if not ok:
             v[0] = False
             v[1].append(cell_text(fl, wp))
+
+    reasons: Dict[Tuple[str, int], str] = {}
+    forwards: Dict[str, Tuple[bool, str]] = {}
+
+    def dropped(d, reason, fl, wp):
+        """the object handed to the server is a fresh one whose close() (if it has one) does not reach the stream"""
+        what = what_wrap if fl else what_keep
+        note(what, d, False, fl, wp)
+        reasons[(what, d)] = reason
 
     rets = []
     for r in [n for n in gcfg.live_nodes() if n.kind == 'stmt' and isinstance(n.ast, ast.Return)]:
@@ -1963,6 +2053,9 @@ def _get_body_wrapping(run, closer: Class):
                         continue
                     if not any(is_gs(x) for x in ast.walk(e)):
                         raise UnknownIdiom('%s: streamed iterable %s does not come from %s.stream' % (g.qual, short(e), resp))
+                    if isinstance(e, (ast.GeneratorExp, ast.ListComp, ast.SetComp, ast.DictComp)):
+                        dropped(d, _COMPREHENSION_REASON[type(e).__name__], fl, wp)
+                        continue
                     if not isinstance(e, ast.Call):
                         raise UnknownIdiom('%s: streamed iterable %s' % (g.qual, short(e)))
                     if is_w(e.func):
@@ -1972,9 +2065,22 @@ def _get_body_wrapping(run, closer: Class):
                     t = p.callee(g, e)
                     if isinstance(t, Class) and t.qual == closer.qual:
                         note(what_wrap, d, stream_arg(e, t) and fl, fl, wp)
+                    elif isinstance(t, str) and t in _CLOSE_DROPPING:
+                        dropped(d, 'built by %s: %s' % (short(e.func), _CLOSE_DROPPING[t]), fl, wp)
                     elif isinstance(t, str) and t.startswith('builtins.') and fl:
                         # iter(lambda: stream.read(n), b''), map(...), ...: no builtin closes what it iterates
                         note(what_wrap, d, False, fl, wp)
+                    elif isinstance(t, Class) and t.qual.startswith('falcon.'):
+                        # another wrapper class of the package: read its close()
+                        if t.qual not in forwards:
+                            forwards[t.qual] = _close_forwarding(p, t)
+                        ok, why = forwards[t.qual]
+                        if ok and not stream_arg(e, t):
+                            raise UnknownIdiom('%s: %s is not handed the stream as the object it wraps' % (g.qual, short(e)))
+                        if ok:
+                            note(what_wrap if fl else what_keep, d, True, fl, wp)
+                        else:
+                            dropped(d, 'built by %s: %s' % (short(e.func), why), fl, wp)
                     else:
                         raise UnknownIdiom('%s: streamed iterable built by %s (not the server file wrapper, not %s)'
                                            % (g.qual, short(e.func), closer.qual))
@@ -1983,9 +2089,14 @@ def _get_body_wrapping(run, closer: Class):
     for (what, d), (ok, cells) in sorted(verdicts.items(), key=lambda kv: (kv[0][1], kv[0][0])):
         rw = {what_plain: 'a file-like stream is iterated line by line instead of in blocks and is not closed through our wrapper',
               what_wrap: 'the response stream is never closed',
+              what_keep: 'resp.stream is a re-iterable object with its own close() (its __iter__ hands out a fresh iterator): the server '
+                         'closes the object it was given, the stream\'s close() is called 0 times whether streaming completes, the '
+                         'stream raises or the server\'s write fails',
               what_present: 'file-like resp.stream under a server without wsgi.file_wrapper: None(stream, size) -> TypeError, 500'}[what]
+        why = reasons.get((what, d))
         run.check(ok, what, g, gcfg.node(d).ast, where='%s:%s' % (g.file, gcfg.node(d).lineno),
-                  witness=['wrong for: ' + c for c in cells] or None, runtime_witness=rw + (' [%s]' % '; '.join(cells) if cells else ''))
+                  witness=(([why] if why and not ok else []) + ['wrong for: ' + c for c in cells]) or None,
+                  runtime_witness=rw + (' [%s]' % '; '.join(cells) if cells else ''))
 
 
 # ---------------------------------------------------------------------------
